@@ -506,7 +506,11 @@ class Parser:
             self.raise_syntax_error_known_location("imaginary number required in complex literal", number)
         return value
 
-    def check_fstring_conversion(self, name: TokenInfo) -> int:
+    def check_fstring_conversion(self, mark: TokenInfo, name: TokenInfo) -> int:
+        if mark.end != name.start:
+            self.raise_syntax_error_known_range(
+                "f-string: conversion type must come right after the exclamanation mark", mark, name
+            )
         s = name.string
         if len(s) > 1 or s not in ("s", "r", "a"):
             self.raise_syntax_error_known_location(
